@@ -580,7 +580,16 @@ def expect_model(hout, mout, case):
     return None
 
 
-def make_case(data, skip, flavour, oracles, tags, with_model=True, cap=CAP):
+def model_decides(data, base):
+    """False when the model can only answer `unsupported` and nothing would be compared: a kd-tree / Edgebreaker
+    stream (method byte != 0) whose 11 header bytes are those of the valid stream it was derived from"""
+    if base is None or len(data) < 11 or len(base) < 11:
+        return True
+    return data[8] == 0 or data[:11] != base[:11]
+
+
+def make_case(data, skip, flavour, oracles, tags, with_model=True, cap=CAP, base=None):
+    with_model = with_model and model_decides(data, base)
     hx = data.hex() or "-"
     dump = len(data) > 8 and data[8] == 0
     op = f"rdec cap={cap} skip={skip} " + ("dump=1 " if dump else "") + hx
